@@ -15,7 +15,7 @@ EXPLANATION = (
     "returned is the specification's. (3) The hybrid encoder on sequences covering the equality patterns of run detection (run lengths "
     "1, 7, 8, 9, 15, 16, 17, 24 between literal stretches, widths 1, 2, 3, 8): the bytes appended, read by the specification's decoder, "
     "are the sequence. (4) BYTE_STREAM_SPLIT: stream byte k*count + i is byte k of value i, both directions, widths 1..16, decided by "
-    "provenance of opaque bytes. (5) The run headers and DELTA headers are LEB128 on both sides for every value on either side of a "
+    "provenance of opaque bytes. (6) DELTA_BINARY_PACKED streams written from the specification with constant deltas (all used mini-block widths 0, so the values are determined by the headers): values first + k * min_delta, exactly the header bytes consumed, width bytes of the mini-blocks the last block does not use ignored whatever they hold; the streaming decoder (get / get_batch in pieces) returns multi-group streams in stream order for every cutting of the requests. (5) The run headers and DELTA headers are LEB128 on both sides for every value on either side of a "
     "7-bit boundary (R38). Decides these clauses; it does not decide DELTA_BINARY_PACKED / DELTA_LENGTH / DELTA_BYTE_ARRAY block "
     "contents (min-delta arithmetic, mini-block widths, wide-delta byte layout), PLAIN value layouts beyond the extents of C11.2, nor "
     "the hybrid forms outside the grid.")
@@ -36,6 +36,11 @@ def run(ctx):
     nd = encspec.check_hybrid_decoder(ctx)
     ctx.floor("C12 specification streams through the hybrid decoder", nd, 100)
     ctx.count("level_decoder_streams", encspec.check_levels_decoder(ctx))
+    nsd = encspec.check_streaming_decoder(ctx)
+    ctx.floor("C12 request sequences through the streaming decoder", nsd, 50)
+    ctx.clause("C12.6 DELTA_BINARY_PACKED headers: streams with constant deltas decode to first + k * min_delta, consume exactly their header bytes, and the width bytes of unused mini-blocks are ignored")
+    ndh = encspec.check_delta_headers(ctx)
+    ctx.floor("C12 constant-delta streams", ndh, 200)
     ctx.clause("C12.3 what the hybrid encoder appends is read back by the specification's decoder as the sequence it was given (equality patterns of run detection)")
     ne = encspec.check_hybrid_encoder(ctx)
     ctx.floor("C12 sequences through the hybrid encoder", ne, 60)
